@@ -806,9 +806,6 @@ func (y *Type) RequireInstance() bool {
 	return y.requireInstance
 }
 
-// Resolve is the effective datatype if this type points to a different
-// dataType, which is the case for leafRefs.  Otherwise this just returns
-// itself
 // IdentityBases are the bases of an identityref, for a union those of all its identityref members
 func (y *Type) IdentityBases() []*Identity {
 	if len(y.unionTypes) == 0 {
@@ -821,6 +818,9 @@ func (y *Type) IdentityBases() []*Identity {
 	return bases
 }
 
+// Resolve is the effective datatype if this type points to a different
+// dataType, which is the case for leafRefs.  Otherwise this just returns
+// itself
 func (y *Type) Resolve() *Type {
 	if y.delegate == nil {
 		panic("no delegate")
